@@ -17,6 +17,7 @@ import (
 	"sort"
 	"strconv"
 	"strings"
+	"unicode/utf8"
 )
 
 // ModelError is an evaluation failure at a known position.
@@ -25,6 +26,8 @@ type ModelError struct {
 	Line  int
 	Class string
 	Msg   string
+	// Payload: the failure is a Go panic with this string as its value; a catch variable holds the string itself
+	Payload string
 }
 
 func (e *ModelError) Error() string {
@@ -310,6 +313,46 @@ func (in *Interp) escape(b []byte) []byte {
 	return HTMLEscape(b)
 }
 
+// escapeWritten is what Runtime.Write makes of b: the escaper sees whole characters, and an incomplete
+// character that b ends in is handed over on its own right away (nothing waits for a later write).
+func (in *Interp) escapeWritten(b []byte) []byte {
+	cut := len(b)
+	for i := 1; i < utf8.UTFMax && i <= len(b); i++ {
+		if c := b[len(b)-i]; utf8.RuneStart(c) {
+			if c >= utf8.RuneSelf && !utf8.FullRune(b[len(b)-i:]) {
+				cut = len(b) - i
+			}
+			break
+		}
+	}
+	if in.prog.Escaper == "nil" {
+		return b
+	}
+	var out []byte
+	if cut > 0 {
+		out = append(out, in.escape(b[:cut])...)
+	}
+	if cut < len(b) {
+		out = append(out, in.escape(b[cut:])...)
+	}
+	return out
+}
+
+func (in *Interp) renderChunks(n *Node, x RendChunks) {
+	for i, p := range x.Pieces {
+		if i == x.FailAfter {
+			in.fail(n, "renderer-failed", "renderer gave up after %d pieces", i)
+		}
+		in.raw(in.escapeWritten([]byte(p)))
+		if x.Raw {
+			in.raw([]byte(RendChunksRaw))
+		}
+	}
+	if x.FailAfter >= len(x.Pieces) {
+		in.fail(n, "renderer-failed", "renderer gave up after %d pieces", len(x.Pieces))
+	}
+}
+
 func safeWriter(name string) (func([]byte) []byte, bool) {
 	switch name {
 	case "raw", "unsafe":
@@ -340,7 +383,10 @@ func PrintValue(v interface{}) []byte {
 	case hidden:
 		return nil
 	case errValue:
-		return []byte(x.e.Error())
+		if x.e.Payload != "" {
+			return []byte(x.e.Payload)
+		}
+		panic(OutOfModel{"the wording of an engine error is printed"})
 	case RendWrite:
 		return []byte(x.S)
 	}
@@ -463,16 +509,21 @@ func (in *Interp) stmt(n *Node) (ret interface{}, has bool) {
 	case "comment":
 	case "print":
 		v, written := in.evalTop(n, n.E)
-		if !written {
+		if rc, ok := v.(RendChunks); ok && !written {
+			in.renderChunks(n, rc)
+		} else if !written {
 			in.raw(in.escape(PrintValue(v)))
 		}
 	case "let", "set":
 		in.assign(n, n)
 	case "fail":
+		if n.Class == "string-panic" {
+			panic(&ModelError{File: n.File, Line: n.Line, Class: n.Class, Msg: "generated failing action " + n.Src, Payload: n.Text})
+		}
 		in.fail(n, n.Class, "generated failing action %s", n.Src)
 	case "return":
-		v := in.eval(n, n.E)
-		return v, v != nil
+		// the last return that was executed counts, also one whose value is nil
+		return in.eval(n, n.E), true
 	case "if":
 		if n.Hdr != nil && n.Hdr.Decl {
 			in.push(nil)
@@ -643,6 +694,14 @@ func (in *Interp) iterOf(n *Node, v interface{}) iter {
 			return k.Interface(), v.Interface(), true
 		}}
 	case *PlainRanger:
+		return iter{false, func() (interface{}, interface{}, bool) {
+			_, v, end := r.Range()
+			if end {
+				return nil, nil, false
+			}
+			return nil, v.Interface(), true
+		}}
+	case *NilOKRanger:
 		return iter{false, func() (interface{}, interface{}, bool) {
 			_, v, end := r.Range()
 			if end {
@@ -855,7 +914,7 @@ func (in *Interp) lookupVar(name string) (interface{}, bool) {
 	return nil, false
 }
 
-var builtinNames = map[string]bool{"lower": true, "upper": true, "hasPrefix": true, "hasSuffix": true, "repeat": true, "replace": true, "split": true, "trimSpace": true, "html": true, "url": true, "safeHtml": true, "safeJs": true, "raw": true, "unsafe": true, "writeJson": true, "json": true, "map": true, "slice": true, "array": true, "isset": true, "len": true, "includeIfExists": true, "exec": true, "ints": true, "dump": true, "addGlobalNow": true}
+var builtinNames = map[string]bool{"lower": true, "upper": true, "hasPrefix": true, "hasSuffix": true, "repeat": true, "replace": true, "split": true, "trimSpace": true, "html": true, "url": true, "safeHtml": true, "safeJs": true, "raw": true, "unsafe": true, "writeJson": true, "json": true, "map": true, "slice": true, "array": true, "isset": true, "len": true, "includeIfExists": true, "exec": true, "ints": true, "dump": true, "addGlobalNow": true, "rtWrite": true}
 
 // member: a.name — struct field (exported), map entry, or method without arguments.
 func (in *Interp) member(at *Node, v interface{}, name string) (interface{}, bool) {
@@ -1182,6 +1241,12 @@ func (in *Interp) call(at *Node, name string, argExprs []*Expr, piped interface{
 	}
 	if f, ok := in.Funcs[name]; ok {
 		return f(in, args)
+	}
+	if name == "rtWrite" {
+		for _, a := range args {
+			in.raw(in.escapeWritten([]byte(str(at, in, a))))
+		}
+		return nil
 	}
 	if name == "addGlobalNow" {
 		need(2)
